@@ -1359,6 +1359,10 @@ class Interp:
                 return recv is None or bool(self.apply(args[0], recv[1]))
             return recv
         # Option combinators (None is Python None, Some(x) is ("Some", x))
+        if m in ("is_some_and", "is_none_or") and len(args) == 1 and (recv is None or (isinstance(recv, tuple) and recv and recv[0] == "Some")):
+            if recv is None:
+                return m == "is_none_or"
+            return bool(self.apply(args[0], recv[1]))
         if m in ("and_then", "unwrap_or", "unwrap_or_else", "unwrap_or_default") and (recv is None or (isinstance(recv, tuple) and recv and recv[0] == "Some")):
             if m == "and_then":
                 return None if recv is None else self.apply(args[0], recv[1])
@@ -1436,6 +1440,27 @@ class Interp:
                 return any(self.apply(args[0], x) for x in recv)
             if m == "skip":
                 return recv[args[0]:]
+            if m == "windows" and isinstance(args[0], int):
+                if args[0] == 0:
+                    raise NotEvaluable("windows(0) panics")
+                return [recv[i:i + args[0]] for i in range(0, len(recv) - args[0] + 1)]
+            if m == "starts_with" and isinstance(args[0], list):
+                return recv[:len(args[0])] == args[0]
+            if m == "ends_with" and isinstance(args[0], list):
+                return args[0] == [] or recv[-len(args[0]):] == args[0]
+            if m == "first" and not args:
+                return ("Some", recv[0]) if recv else None
+            if m == "last" and not args:
+                return ("Some", recv[-1]) if recv else None
+            if m == "position" and len(args) == 1:
+                for i_, x_ in enumerate(recv):
+                    if self.apply(args[0], x_):
+                        return ("Some", i_)
+                return None
+            if m == "is_empty" and not args:
+                return not recv
+            if m == "len" and not args:
+                return len(recv)
             if m == "len":
                 return len(recv)
             if m == "is_empty":
